@@ -166,6 +166,22 @@ def stream_validate(c, N):
         lines.append(dict(op="validate", keep=keep, mono=mono, nT=n,
                           goals=[s.wire() for s in specs if s.point is not None],
                           pgoals=[s.wire() for s in specs if s.point is None]))
+    # `Goal.is_empty` (decides which goals form the priorities): model vs the real property
+    elines = [dict(op="empty", goal=s.wire()) for case in cases for s in case["specs"]]
+    eouts = c.model(elines)
+    if eouts is not None:
+        times5 = [0.0, 1.0, 2.0, 3.0, 4.0]
+        pos = 0
+        for case in cases:
+            for s in case["specs"]:
+                real = bool(S.build_goal(s, times5[:case["n"]]).is_empty)
+                c.count()
+                c.hit("is_empty/%s" % real)
+                if real != S.is_empty(s):
+                    c.fail("Goal.is_empty differs from 'target goal without any finite target entry'", s.describe(), real)
+                if eouts[pos] != real:
+                    c.disagree("Goal.is_empty", s.describe(), eouts[pos], real)
+                pos += 1
     outs = c.model(lines)
     for k, case in enumerate(cases):
         specs, keep, mono, n = case["specs"], case["keep"], case["mono"], case["n"]
@@ -678,9 +694,9 @@ def run(c):
     c.prove()
     run_corpus(c)
     stream_update_bounds(c)
-    stream_validate(c, c.n(400, 25000))
-    stream_rows(c, c.n(80, 3000))
-    stream_solved(c, c.n(80, 3000))
+    stream_validate(c, c.n(400, 12000))
+    stream_rows(c, c.n(80, 1500))
+    stream_solved(c, c.n(80, 1500))
     probe_f23(c)
     probe_f27(c)
     c.exhaustive = False
